@@ -513,7 +513,7 @@ def leaf_eq(it, a, b, pc):
         fr = it.frames[-1]
         ea = [(p_, x) for p_, x in la.elems if not vc.c_is_false(p_)]
         eb = [(p_, x) for p_, x in lb.elems if not vc.c_is_false(p_)]
-        if len(ea) * len(eb) > 4096:
+        if len(ea) * len(eb) > 65536:
             raise Unsupported("== on long lists with optional elements")
 
         def eqv(x, y, px=None, py=None):
@@ -830,6 +830,19 @@ def call_native_method(it, recv, name, args, kwargs, pc):
         it.log_effect("native-mutation", recv, name, pc)
         if type(recv) is U or pc is not vc.CT or not all(I.deep_concrete(a) and type(a) is not U for a in args):
             raise Unsupported("symbolic mutation of real container via .%s" % name)
+    # lookup in a real dict by a symbolic sequence key (a cache keyed by tuples of metric values):
+    # decided when the dict is empty; otherwise the key is compared with every stored key
+    if isinstance(leaf0, dict) and type(recv) is not U and name == "get" and args and isinstance(args[0], SymList) and not kwargs:
+        default = args[1] if len(args) > 1 else None
+        if len(recv) == 0:
+            return default
+        res = default
+        for k0 in reversed(list(recv.keys())):
+            if not isinstance(k0, tuple):
+                continue
+            same = it.truth(it.compare(ast.Eq, args[0], SymList([[vc.CT, x] for x in k0], is_tuple=True), fr, pc), fr, pc)
+            res = vc.select(same, recv[k0], res)
+        return res
     # convert fully concrete symbolic sequences to real ones
     conv = []
     for a in args:
@@ -1177,6 +1190,16 @@ def call_real(it, f, args, kwargs, pc):
     vc = it.vc
     I = _I()
     ov = it.native_overrides.get(f) if _hashable(f) else None
+    if ov is not None and _hashable(f) and f in _DISTRIBUTE_FIRST and args and type(args[0]) is U and I.has_special(args[0]):
+        # a pure builtin applied to "one of several heap objects" (e.g. a dict that is either the
+        # object's own or a copy of it): apply it to each alternative under its guard
+        outs = []
+        for g_, leaf in args[0].alts:
+            apc = vc.c_andg(pc, g_)
+            if vc.c_is_false(apc):
+                continue
+            outs.append((g_, ov(it, [leaf] + list(args[1:]), kwargs, apc)))
+        return vc.mk_union(outs, sweep=False)
     if ov is not None:
         return ov(it, args, kwargs, pc)
     import re as _re
@@ -1206,6 +1229,9 @@ def call_real(it, f, args, kwargs, pc):
         return f(*vals[:n], **dict(zip(kwk, vals[n:])))
 
     return vc.lift(g, conv + [kwargs[k] for k in kwk], pc, it.sink)
+
+
+_DISTRIBUTE_FIRST = {sorted, list, tuple, dict, len, set, frozenset, enumerate, reversed, sum, min, max, any, all, collections.OrderedDict}
 
 
 def _hashable(f):
